@@ -50,7 +50,7 @@ TOLERANCES = {
     "voxel-volume": "rel. error <= 1.5*sqrt(3)*h*S/V (volume of the layer "
                     "of cells that can straddle the surface)",
 }
-TIMEOUT = 180
+TIMEOUT = 600
 
 LD = np.longdouble
 EPS_SURF = 1e-9
